@@ -30,7 +30,7 @@ fn main() {
                     writeln!(so, "STACK {} {:?}", i, state.get_stack(i)).unwrap();
                 }
             }
-            for c in &residual {
+            for c in residual.iter().take(200) {
                 writeln!(
                     so,
                     "RES {} {} {} {:?}",
